@@ -191,9 +191,35 @@ func genC08(r *Rng, e *Emitter, n int) {
 			}
 			e.tally("op=extend-seq")
 			e.tally(fmt.Sprintf("extend-distinct-layouts=%d", len(mix)))
+			// how the box comes into being: empty, or set to a given box through Set / SetCoords (then it
+			// is the box of its two corners, which is what the model is told), possibly cloned
+			init := 0
+			var mn, mx []float64
+			if l0 != geom.NoLayout && r.chance(1, 2) {
+				init = 1 + r.Intn(2)
+				st := l0.Stride()
+				mn, mx = make([]float64, st), make([]float64, st)
+				for d := 0; d < st; d++ {
+					a, c := float64(r.Intn(9)-4), float64(r.Intn(9)-4)
+					mn[d], mx[d] = math.Min(a, c), math.Max(a, c)
+				}
+				corner := func(c []float64) string { return fmt.Sprintf("(f %d %d %s)", int(l0), st, sxCoord(c)) }
+				parts = append([]string{corner(mn), corner(mx)}, parts...)
+			}
+			clone := r.chance(1, 3)
+			e.tally(fmt.Sprintf("extend-init=%d clone=%v", init, clone))
 			e.emit("C08.ext", fmt.Sprintf("(%d (%s))", int(l0), strings.Join(parts, " ")),
 				guard(func() string {
 					b := geom.NewBounds(l0)
+					switch init {
+					case 1:
+						b.Set(append(append([]float64{}, mn...), mx...)...)
+					case 2:
+						b.SetCoords(geom.Coord(append([]float64{}, mn...)), geom.Coord(append([]float64{}, mx...)))
+					}
+					if clone {
+						b = b.Clone()
+					}
 					for _, g := range gs {
 						b.Extend(g)
 					}
